@@ -117,6 +117,58 @@ pub fn run(ctx: &Ctx) -> Report {
     }
     rep.absorb(par_cases(&cases, |p, l| c01::judge_prog_for(ID, p, "constants", &opts, l)));
 
+    // (b2) long chains of address-free constants, users before definitions and definitions first, feeding data and
+    //      an `#if`, under small and default budgets: the order of declaration must not matter
+    let mut long_cases: Vec<(String, Vec<u8>, usize)> = vec![];
+    for n in [2usize, 3, 4, 6, 8, 12, 16, 24, 40] {
+        for users_first in [true, false] {
+            for with_if in [false, true] {
+                let mut lines: Vec<String> = (1..n).map(|i| format!("c{} = c{} + 1", i, i + 1)).collect();
+                lines.push(format!("c{} = 1", n));
+                if !users_first {
+                    lines.reverse();
+                }
+                let mut src = String::new();
+                let mut expect = vec![n as u8];
+                let use_text = if with_if {
+                    expect.push(0x55);
+                    format!("#d8 c1\n#if c1 == {}\n{{\n#d8 0x55\n}}\n", n)
+                } else {
+                    "#d8 c1\n".to_string()
+                };
+                for placement in 0..2 {
+                    src.clear();
+                    if placement == 0 {
+                        src += &use_text;
+                    }
+                    src += &lines.join("\n");
+                    src += "\n";
+                    if placement == 1 {
+                        src += &use_text;
+                    }
+                    for budget in [2usize, 3, 10] {
+                        long_cases.push((src.clone(), expect.clone(), budget));
+                    }
+                }
+            }
+        }
+    }
+    rep.absorb(par_cases(&long_cases, |(src, expect, budget), l| {
+        l.eval();
+        l.nontrivial(&(src, budget));
+        l.class("long-constant-chain");
+        let obs = run::assemble_str(src, &Opts::iters(*budget));
+        let want: String = expect.iter().map(|b| format!("{:08b}", b)).collect();
+        if !(obs.success() && obs.bits == want) {
+            l.violation(Violation {
+                property: ID,
+                key: "C15:long-constant-chain-depends-on-declaration-order-or-budget".into(),
+                what: format!("[iters={}] {}", budget, src.replace('\n', " / ").chars().take(200).collect::<String>()),
+                case: json!({"family": "long-chain", "program": src, "opts": Opts::iters(*budget).to_json(), "expected": {"ok": true, "hex": run::bits_to_hex(&want), "bits_len": want.len()}, "observed": obs.summary()}),
+            });
+        }
+    }));
+
     // (c) moving an address-free constant (differential, real vs real)
     let ndecl_c: u64 = 6;
     let maxlen_c: u32 = if ctx.thorough { 4 } else { 3 };
